@@ -384,7 +384,12 @@ def debug_route_sessions(path, image, answers, base, visited, w, cmds, probe, pn
     addr_sets = [None, set(), {vs[2]}, {vs[0], max(visited) + 8 * w}]
     label_sets = [None, set(), {'lab_a'}, {'main.lab_b', 'zz_none'}]
     sub_sets = [None, {'lab_'}, {'zz_none'}]
-    for addrs, labs, subs in itertools.product(addr_sets, label_sets, sub_sets):
+    # the same address sets with NO label information at all: no debug file, and a debug file holding an empty table
+    empty_dbg = scratch() / f'c15-{w}-debugroute-empty.fjd'
+    save_debugging_labels(empty_dbg, {})
+    combos = [(dbg, table, a, l_, s_) for a, l_, s_ in itertools.product(addr_sets, label_sets, sub_sets)]
+    combos += [(d_, {}, a, None, None) for d_ in (None, empty_dbg) for a in addr_sets + [{vs[0]}, {vs[1], vs[2]}]]
+    for dbg, table, addrs, labs, subs in combos:
         want = set(addrs or ()) | {table[n] for n in (labs or ()) if n in table} | {a for nm, a in table.items() if any(x in nm for x in (subs or ()))}
         for script, term in (((cont,) * 6, False), ((step, cont, cont, cont, cont, cont), True)):
             exp = model_session(image, answers, base, want, script, w, cmds)
@@ -405,6 +410,7 @@ def debug_route_sessions(path, image, answers, base, visited, w, cmds, probe, pn
             if problems:
                 sieve.add({'kind': 'flipjump.debug(): the session differs from the debugger model', 'class': f'debug() route {problems[0][0]}',
                            'case': {'w': w, 'program': pname, 'image': image.to_json(), 'answers': answers, 'label_table': table, 'debug_route': True,
+                                    'debug_file': 'none' if dbg is None else 'empty table' if not table else 'table',
                                     'addresses': sorted(addrs) if addrs is not None else None, 'labels': sorted(labs) if labs is not None else None,
                                     'substrings': sorted(subs) if subs is not None else None, 'print_termination': term, 'script': [cmds[c][0] for c in script]},
                            'expected': {p_[0]: p_[1] for p_ in problems}, 'observed': {p_[0]: p_[2] for p_ in problems}, 'ref_trace': base.steps,
@@ -475,6 +481,8 @@ def replay(args):
         from fjv.enginecheck import scratch
         dbg = scratch() / 'replay.fjd'
         save_debugging_labels(dbg, c['label_table'])
+        if c.get('debug_file') == 'none':
+            dbg = None
         sets = [set(c[k]) if c[k] is not None else None for k in ('addresses', 'labels', 'substrings')]
         via_debug = (dbg, sets[0], sets[1], sets[2], c['print_termination'])
         t = c['label_table']
